@@ -14,8 +14,8 @@ from math import factorial
 from typing import Dict, List, Optional, Tuple
 
 from ..elements import load_refdoms, RefdomInfo
-from ..interp import PyFunc, Arr, Interp, Unsupported, Raised
-from ..model import AnalysisError, FuncInfo, Model, src
+from ..interp import ClassRef, PyFunc, Arr, Interp, Unsupported, Raised
+from ..model import staged, AnalysisError, FuncInfo, Model, src
 from ..poly import Poly
 
 PID = "C08"
@@ -270,6 +270,92 @@ def _audit_generated(rep, R1, fname, fn, r, dim, val, gauss):
         rep.fail(R1, F, fname, f"{cons}:degree",
                  f"the rule generated for order {r} does not integrate "
                  f"x^{worst[0]} exactly: {worst[1]}", fn.lineno)
+
+
+def _audit_boxes(model: Model, rep, refdoms):
+    """Quadrilateral and hexahedron rules, per requested order: the whole
+    dispatch function is interpreted with symbolic Gauss-Legendre rules and
+    every monomial of total degree <= order must come out exactly
+    (int over [0,1]^d).  Independent of how the tensor product is spelled
+    and of where the Gauss point count comes from."""
+    R3 = "C08-R3"
+    fn = model.func(QMOD, "get_quadrature")
+    for name, dim in (("RefQuad", 2), ("RefHex", 3)):
+        rd = refdoms[name]
+        worst = None
+        orders = range(0, 13 if dim == 2 else 9)
+        for r in orders:
+            gauss = _GaussSym()
+            try:
+                it = Interp(model, call_hook=gauss.hook,
+                            attr_hook=gauss.attr_hook)
+                val = it.call(fn, [ClassRef(rd.cls), r], {})
+            except Raised:
+                continue                      # order not offered
+            except Unsupported as e:
+                raise AnalysisError(f"get_quadrature({name}, {r}): {e}")
+            if not gauss.used or not (isinstance(val, tuple)
+                                      and len(val) == 2):
+                raise AnalysisError(f"get_quadrature({name}, {r}) is not "
+                                    f"built from Gauss-Legendre rules")
+            X, W = val
+            rows = [Poly.coerce(x) for x in X.flat()] \
+                if isinstance(X, Arr) else None
+            if rows is None or len(rows) != dim:
+                raise AnalysisError(f"get_quadrature({name}, {r}): points")
+            W = Poly.coerce(W)
+            axes = sorted({s_[3:] for s_ in W.symbols()
+                           if s_.startswith("gw_")})
+            if len(axes) != dim:
+                raise AnalysisError(f"get_quadrature({name}, {r}): weights "
+                                    f"are not a {dim}-fold tensor product")
+            for exps in product(range(r + 1), repeat=dim):
+                if sum(exps) > r:
+                    continue
+                Q = W
+                for d_, e_ in enumerate(exps):
+                    for _ in range(e_):
+                        Q = Q * rows[d_]
+                total, why = Fraction(0), None
+                for mono, c in Q.t.items():
+                    pw = dict(mono)
+                    term = Fraction(c)
+                    for ax in axes:
+                        if pw.pop("gw_" + ax, 0) != 1:
+                            raise AnalysisError(
+                                f"get_quadrature({name}, {r}): weights not "
+                                f"linear in each axis' Gauss weights")
+                        p_ = pw.pop("gx_" + ax, 0)
+                        m = gauss.moment(p_)
+                        if m is None:
+                            why = (f"needs the {gauss.n}-point Gauss rule "
+                                   f"to be exact for degree {p_} > "
+                                   f"{2 * gauss.n - 1}")
+                            break
+                        term *= m
+                    if why:
+                        break
+                    if pw:
+                        raise AnalysisError(f"stray symbols {pw}")
+                    total += term
+                exact = Fraction(1)
+                for e_ in exps:
+                    exact /= (e_ + 1)
+                if why is None and total != exact:
+                    why = f"gives {total} instead of {exact}"
+                if why and worst is None:
+                    worst = (r, exps, why)
+        cons = f"get_quadrature[{name}]:degree"
+        if worst is None:
+            rep.ok(R3, cons, f"orders {orders[0]}..{orders[-1]}: every "
+                   f"monomial of total degree <= order integrated exactly "
+                   f"over the unit {'square' if dim == 2 else 'cube'} "
+                   f"(symbolic Gauss moments)")
+        else:
+            r, exps, why = worst
+            rep.fail(R3, F, "get_quadrature", cons,
+                     f"the {name} rule returned for order {r} does not "
+                     f"integrate x^{exps} exactly: {why}", fn.lineno)
 
 
 def _audit_simplex_table(model: Model, rep, fname: str, rd: RefdomInfo):
@@ -922,12 +1008,14 @@ def run(model: Model, rep, tier: str) -> None:
     if ntri < 18 or ntet < 8:
         raise AnalysisError(f"only {ntri} triangle / {ntet} tetrahedron "
                             f"tables found (18 / 9 confirmed by hand)")
-    _audit_line(model, rep)
-    fn, seen = _dispatch(model, rep, refdoms)
-    for name in ("RefQuad", "RefHex", "RefWedge"):
-        if name in seen:
-            _check_tensor_branch(model, rep, fn, refdoms, refdoms[name],
-                                 seen[name].body, seen[name].lineno)
+    def tensor_stage():
+        fn, seen = _dispatch(model, rep, refdoms)
+        for name in ("RefQuad", "RefHex", "RefWedge"):
+            if name in seen:
+                _check_tensor_branch(model, rep, fn, refdoms, refdoms[name],
+                                     seen[name].body, seen[name].lineno)
+    staged(lambda: _audit_boxes(model, rep, refdoms),
+           lambda: _audit_line(model, rep), tensor_stage)
     # the point rule
     pf = model.func(QMOD, "get_quadrature_point")
     try:
@@ -967,6 +1055,11 @@ _TRI_GEN = """    except KeyError:
 
 def get_quadrature_line("""
 MUTANTS = [
+    ("hexahedron rule rounds its own Gauss point count down",
+     (F, "    elif refdom == RefHex:\n        X, W = get_quadrature_line("
+      "norder)\n", "    elif refdom == RefHex:\n        x, w = leggauss("
+      "max(int(norder + 1) // 2, 2))\n        X, W = .5 * x + .5, .5 * w\n"),
+     "C08-R3"),
     ("triangle orders beyond the table served by a collapsed Gauss rule "
      "that ignores the degree of the Jacobian",
      (F, _TRI_EXC, _TRI_GEN % ""), "C08-R1"),
